@@ -14,6 +14,8 @@ use std::mem;
 verus! {
 
 //@include _shared/registry_preamble_a.rs
+opaque!(Channel);
+opaque!(BusListener);
 //@item core/src/message/create_object.rs struct CreateObject
 //@item core/src/message/create_object_reply.rs enum CreateObjectResult
 //@item core/src/message/create_object_reply.rs struct CreateObjectReply
